@@ -71,6 +71,9 @@ func Run(prop, tier string) int {
 			if tier == "thorough" {
 				ml = 3
 			}
+			n3, fs3 := c12kBoostAll()
+			sum.Clauses["eden_boost_burn_cases(engine K product through the real messages on root R8)"] = n3
+			sum.Violations = append(sum.Violations, fs3...)
 			n2, fs2 := c12kKeeperAll(ml)
 			sum.Clauses["commit_then_uncommit_cases(engine K product through the real keeper)"] = n2
 			sum.Violations = append(sum.Violations, fs2...)
@@ -210,6 +213,11 @@ func RunTrace(prop, root string, ops []string) int {
 			pool, _ := w.App.AmmKeeper.GetPool(ctx, pid)
 			tr := sdk.MustAccAddressFromBech32(pool.RebalanceTreasury)
 			fmt.Printf("   pool1 assets=%v treasury=%s threshold=%s distance=%s\n", pool.PoolAssets, w.App.BankKeeper.GetAllBalances(ctx, tr), w.App.AmmKeeper.GetParams(ctx).ThresholdWeightDifference, pool.WeightDistanceFromTarget(ctx, w.App.OracleKeeper, pool.PoolAssets))
+		}
+		if who := os.Getenv("VERIF_DUMP_COMMIT"); who != "" && br.OK() {
+			ctx := w.RCtx()
+			cm := w.App.CommitmentKeeper.GetCommitments(ctx, w.A(who).Addr)
+			fmt.Printf("   commitments %s: committed=%v claimed=%v vesting=%d total=%v\n", who, cm.CommittedTokens, cm.Claimed, len(cm.VestingTokens), w.App.CommitmentKeeper.GetParams(ctx).TotalCommitted)
 		}
 		if os.Getenv("VERIF_DUMP_LLP") != "" && br.OK() {
 			ctx := w.RCtx()
